@@ -7,11 +7,14 @@
    reference's namespace (what changed and that nothing else did), and the state stays Good (C02_step); Good holds
    after Initialize (C02_init_good); hence every history of such calls conforms call by call (C02_history).
    Hypotheses: plain configuration, not read-only (the read-only half is C02_readonly_refuses), header-block counts
-   >= 1, the root is not removed / renamed onto, and create_pre for CreateFile (size below 10^40; the name is not an
-   existing regular file), which excludes the one recorded deviation (Proofs/T02Counter.v (2)): re-creating an
-   existing file keeps its mtime (C02_create_existing: the call then has the reference's outcome and effect except
-   for that column).  There is no hypothesis on the process identity: since the flush of a written handle keeps the
-   owner of the entry (the former finding C02-owner-reset-on-flush, repaired), a new file written through its handle
+   >= 1, the root is not removed / renamed onto, and create_pre for CreateFile: size below 10^40, and not "nothing is
+   written to an existing EMPTY regular file" - the one recorded deviation (Proofs/T02Counter.v (2)): that call does
+   nothing, so the entry keeps its mtime where the reference stamps it (C02_create_existing states the result on every
+   existing regular file, this corner included; C02_create_existing_empty the corner alone).  CreateFile on an
+   existing regular file is otherwise covered by C02_step: the flush of written content stamps the modification time
+   (before, it kept the time the handle saw when it was opened).  There is no hypothesis on the process identity: since the
+   flush of a written handle keeps the owner of the entry (the former finding C02-owner-reset-on-flush, repaired), a
+   new file written through its handle
    is owned by the creating process, as in the reference.  OpenFile with arbitrary flags
    (CWriteFile) and the relation of abs to the walk (C13_walk_all_histories) are not part of these theorems.
    The reference itself is validated against afero OsFs by the side-by-side runs on the implementation. *)
@@ -50,17 +53,35 @@ Theorem C02_history : forall (hr : bool) (c : cfg), plain c -> 0 < c_rs c -> c_r
   forall (r : list (call * env)) (s : sys), Good hr c s -> ok_run c s r -> conforms c s r /\ Good hr c (final c s r).
 Proof. exact T02_history. Qed.
 
-(* CreateFile on an existing regular file (excluded by create_pre): the reference's outcome, and the reference's
-   namespace with the old modification time put back - or no change at all when nothing is written to an empty file *)
+(* CreateFile on an existing regular file: the reference's outcome and the reference's namespace (part of C02_step) -
+   or no change at all when nothing is written to an empty file (the case excluded by create_pre) *)
 Theorem C02_create_existing : forall (hr : bool) (c : cfg), plain c -> 0 < c_rs c -> c_readonly c = false ->
   forall s e n d v, Good hr c s -> hb_env e -> good n -> n <> [slash] -> clen d < 10 ^ 40 ->
   lookup (abs s) n = Some v -> is_dir v = false ->
   let '(s', o) := step c (with_env s e) (CCreateFile n d) in
   exists cid, Good hr c s' /\ o = snd (spec_create_file c (abs s) n (clen d) (ev_now e) cid) /\
     if (n_size v =? 0) && match d with [] => true | _ => false end then ns_eq (abs s') (abs s)
-    else ns_eq (abs s') (ns_upd (fst (spec_create_file c (abs s) n (clen d) (ev_now e) cid)) n
-                                (with_times (n_atime v) (n_mtime v))).
+    else ns_eq (abs s') (fst (spec_create_file c (abs s) n (clen d) (ev_now e) cid)).
 Proof. exact T02_create_file_existing_reference. Qed.
+
+(* the excluded case alone: the call succeeds as in the reference and changes nothing; the reference's entry has the
+   clock's modification time *)
+Theorem C02_create_existing_empty : forall (hr : bool) (c : cfg), plain c -> 0 < c_rs c -> c_readonly c = false ->
+  forall s e n v, Good hr c s -> hb_env e -> good n -> n <> [slash] ->
+  lookup (abs s) n = Some v -> is_dir v = false -> n_size v = 0 ->
+  let '(s', o) := step c (with_env s e) (CCreateFile n []) in
+  Good hr c s' /\ ns_eq (abs s') (abs s) /\
+  forall cid, o = snd (spec_create_file c (abs s) n 0 (ev_now e) cid) /\
+    option_map n_mtime (lookup (fst (spec_create_file c (abs s) n 0 (ev_now e) cid)) n) = Some (ev_now e).
+Proof. exact T02_create_file_existing_empty. Qed.
+
+(* create_pre, spelled out: an existing regular file is allowed unless it is empty and nothing is written *)
+Theorem C02_create_pre_existing : forall a n d v, lookup a n = Some v -> clen d < 10 ^ 40 ->
+  (n_size v <> 0 \/ d <> []) -> create_pre a n d.
+Proof.
+  intros a n d v Hv Hlen H. split; [exact Hlen|]. rewrite Hv. right. apply andb_false_iff.
+  destruct H as [H|H]; [left; apply N.eqb_neq; exact H|right; destruct d; [contradiction|reflexivity]].
+Qed.
 
 (* the subtree operations, stated on their own: exactly the reference's namespace *)
 Theorem C02_rename : forall (hr : bool) (c : cfg), plain c -> 0 < c_rs c -> c_readonly c = false ->
@@ -78,3 +99,5 @@ Print Assumptions C02_readonly_refuses.
 Print Assumptions C02_step.
 Print Assumptions C02_history.
 Print Assumptions C02_create_existing.
+Print Assumptions C02_create_existing_empty.
+Print Assumptions C02_create_pre_existing.
